@@ -80,6 +80,29 @@ def water_switch_overrides():
 
 
 
+def deactivated_untrashed_job():
+    """power_bounded.ini with four atoms and two timer taggers built from shipped classes: one DEACTIVATES the Coulomb
+    tagger without trashing it, the other activates it again.  The Coulomb candidates stay in the scheduler while the
+    tagger is deactivated and must still be found and trashed by the events that list its tag (C08).  Not a job for
+    C09: by C09's wording a deactivated tagger with pending events is not a fresh start (the configuration itself
+    asks for that)."""
+    return ("config_files/2018_JCP_149_064113/coulomb_atoms/power_bounded.ini", {
+        "RandomInputHandler": {"number_of_root_nodes": 4}, "Coulomb": {"number_event_handlers": 3},
+        "SingleIndependentActivePeriodicDirectionEndOfChainEventHandler": {"chain_time": 0.1001},
+        "TagActivator": {"taggers": "coulomb (factor_type_map_in_state_tagger), sampling (no_in_state_tagger), "
+                                    "end_of_chain (active_global_state_in_state_tagger), "
+                                    "start_of_run (no_in_state_tagger), end_of_run (no_in_state_tagger), "
+                                    "switch_off (no_in_state_tagger), switch_on (no_in_state_tagger)"},
+        "SwitchOff": {"create": "switch_off", "trash": "switch_off", "deactivate": "coulomb",
+                      "event_handler": "switch_off_timer (fixed_interval_sampling_event_handler)"},
+        "SwitchOffTimer": {"sampling_interval": 0.1, "output_handler": "separation_output_handler"},
+        "SwitchOn": {"create": "switch_on, coulomb", "trash": "switch_on", "activate": "coulomb",
+                     "event_handler": "switch_on_timer (fixed_interval_sampling_event_handler)"},
+        "SwitchOnTimer": {"sampling_interval": 0.1002, "output_handler": "separation_output_handler"},
+        "StartOfRun": {"create": "coulomb, sampling, end_of_chain, end_of_run, switch_off, switch_on"},
+        "EndOfRun": {"trash": "end_of_chain, coulomb, sampling, end_of_run, switch_off, switch_on"}})
+
+
 def crowded_jobs(cfgs):
     """Deterministic extra jobs: many units in few cells (several units per cell, surplus lists in use) and
     three composite objects with molecule/atom mode switching (two active leaves of one object at once)."""
